@@ -396,3 +396,37 @@ Theorem parse_all_emit d : wfb d = true -> parse_all (emit d) = Some d.
 Proof.
   intros H. unfold parse_all. rewrite <- (app_nil_r (emit d)). now rewrite parse_emit.
 Qed.
+
+(* everything the reader returns is well-formed *)
+Lemma parse_wf_f : forall f,
+  (forall bs d rest, parse_f f bs = Some (d, rest) -> wfb d = true) /\
+  (forall bs l, parse_l f bs = Some l -> forallb wfb l = true).
+Proof.
+  induction f as [|f [IHf IHl]]; [split; intros; discriminate|]. split.
+  - intros bs d rest H. cbn [parse_f] in H.
+    destruct bs as [|id r1]; [discriminate|].
+    destruct (N.eqb_spec (id mod 32) 31) as [|Ht]; [discriminate|].
+    destruct (N.ltb_spec 255 id) as [|Hid]; [discriminate|].
+    destruct (dec_len r1) as [[n r2]|]; [|discriminate].
+    destruct (N.of_nat (length r2) <? n); [discriminate|].
+    assert (Hc : id / 64 < 4) by (apply N.div_lt_upper_bound; lia).
+    assert (Htt : id mod 32 < 31) by (pose proof (N.mod_lt id 32 ltac:(lia)); lia).
+    destruct ((id / 32) mod 2 =? 1).
+    + destruct (parse_l f (firstn (N.to_nat n) r2)) as [kids|] eqn:Ek; [|discriminate].
+      injection H as <- _. cbn [wfb]. apply IHl in Ek. rewrite Ek.
+      apply N.ltb_lt in Hc, Htt. now rewrite Hc, Htt.
+    + injection H as <- _. cbn [wfb]. apply N.ltb_lt in Hc, Htt. now rewrite Hc, Htt.
+  - intros bs l H. cbn [parse_l] in H. destruct bs as [|b bs']; [injection H as <-; reflexivity|].
+    destruct (parse_f f (b :: bs')) as [[d rest]|] eqn:Ed; [|discriminate].
+    destruct (parse_l f rest) as [ds|] eqn:El; [|discriminate].
+    injection H as <-. cbn [forallb]. apply IHf in Ed. apply IHl in El. now rewrite Ed, El.
+Qed.
+
+Lemma parse_wf bs d rest : parse bs = Some (d, rest) -> wfb d = true.
+Proof. unfold parse. apply (proj1 (parse_wf_f _)). Qed.
+
+Lemma parse_all_wf bs d : parse_all bs = Some d -> wfb d = true.
+Proof.
+  unfold parse_all. destruct (parse bs) as [[d' [|? ?]]|] eqn:E; try discriminate.
+  intros H; injection H as <-. eapply parse_wf; eauto.
+Qed.
